@@ -364,6 +364,7 @@ pub fn cmd_check(opts: &BTreeMap<String, String>) -> i32 {
     let deadline: u64 = opts.get("deadline").and_then(|s| s.parse().ok()).unwrap_or(if tier == "quick" { 300 } else { 3000 });
     let exe = std::env::current_exe().expect("current_exe");
     let root = verif_root();
+    crate::runner::sweep_stale_scratch();
     let (_known_open, known_entries) = load_known(&format!("{root}/KNOWN_FINDINGS.txt"));
     println!("pocket-sim check property={prop} tier={tier} VERIF_SEED={seed} runs={runs} workers={jobs}");
     // the concurrent mode models std's RwLock inside mmap-append (a new reader waits while a
@@ -611,7 +612,7 @@ pub fn cmd_check(opts: &BTreeMap<String, String>) -> i32 {
                     "process death = byte copy of event.map/data.mdb/lock.mdb at the hook point",
                     "thread scheduler = controller releasing one real thread at a time",
                     "wall clock = pocket_types::verif_clock",
-                    "I/O and engine errors = fail-points",
+                    "I/O and engine errors = fail-points (injected) and RLIMIT_FSIZE (the kernel's own EFBIG on ftruncate / pwrite: real)",
                     "address-space layout = PROT_NONE page after the event map",
                 ]
                 .map(String::from),
